@@ -24,6 +24,7 @@ from genjax._src.core.compiler.interpreters.incremental import Diff
 from genjax._src.core.compiler.staging import FlagOp, tree_choose
 from genjax._src.core.pytree import Pytree
 from genjax._src.core.typing import (
+    Any,
     Array,
     ArrayLike,
     Flag,
@@ -255,7 +256,8 @@ class Mask(Generic[R], Pytree):
         else:
 
             def inner(true_v: ArrayLike, false_v: ArrayLike) -> Array:
-                return jnp.where(self.primal_flag(), true_v, false_v)
+                flag = Mask._leading(self.primal_flag(), true_v)
+                return jnp.where(flag, true_v, false_v)
 
             return jtu.tree_map(inner, self.value, default)
 
@@ -279,6 +281,15 @@ class Mask(Generic[R], Pytree):
     ###############
     # Combinators #
     ###############
+
+    @staticmethod
+    def _leading(flag: Any, leaf: Any) -> Any:
+        """The shape of a vectorized flag is a *prefix* of each leaf's shape: align the flag
+        (or an index derived from it) with the leading axes of `leaf`, as `jax.vmap` would."""
+        extra = jnp.ndim(leaf) - jnp.ndim(flag)
+        if isinstance(flag, Array) and jnp.ndim(flag) > 0 and extra > 0:
+            return jnp.reshape(flag, jnp.shape(flag) + (1,) * extra)
+        return flag
 
     def _or_idx(self, first: Flag, second: Flag):
         """Converts a pair of flag arrays into an array of indices for selecting between two values.
@@ -316,7 +327,9 @@ class Mask(Generic[R], Pytree):
                 return other
             case self_flag, other_flag:
                 idx = self._or_idx(self_flag, other_flag)
-                return tree_choose(idx, [self, other])
+                return jtu.tree_map(
+                    lambda a, b: tree_choose(Mask._leading(idx, a), [a, b]), self, other
+                )
 
     def __xor__(self, other: "Mask[R]") -> "Mask[R]":
         self._validate_mask_shapes(other)
@@ -334,7 +347,11 @@ class Mask(Generic[R], Pytree):
                 # note that `idx` above will choose the correct side for the FF, FT and TF cases,
                 # but will equal 0 for TT flags. We use `FlagOp.xor_` to override this flag to equal
                 # False, since neither side in the TT case will provide a `False` flag for us.
-                chosen = tree_choose(idx, [self.value, other.value])
+                chosen = jtu.tree_map(
+                    lambda a, b: tree_choose(Mask._leading(idx, a), [a, b]),
+                    self.value,
+                    other.value,
+                )
                 return Mask(chosen, FlagOp.xor_(self_flag, other_flag))
 
     def __invert__(self) -> "Mask[R]":
